@@ -188,7 +188,7 @@ func runTP(c TPCase, rec *h.Rec) error {
 	return nil
 }
 
-var propTP = h.NewProp("TestPropTestPolynomial", h.Budget{Quick: 200, Thorough: 3000}, genTP, runTP)
+var propTP = h.NewProp("TestPropTestPolynomial", h.Budget{Quick: 300, Thorough: 3000}, genTP, runTP)
 
 func TestPropTestPolynomial(t *testing.T) { propTP.Check(t) }
 
@@ -202,17 +202,20 @@ type Slot struct {
 }
 
 type BRCase struct {
-	LWE   h.RLWESpec `json:"lwe"`
+	LWE h.RLWESpec `json:"lwe"`
 	// level of the LWE-side ciphertext (-1 or absent in old replays: maximum)
-	LWELevel int `json:"lweLevel"`
-	BR    h.RLWESpec `json:"br"`
-	W     int        `json:"w"`
-	F     FSpec      `json:"f"`
-	A     float64    `json:"a"`
-	B     float64    `json:"b"`
-	Slots []Slot     `json:"slots"`
-	Fill  uint64     `json:"fill"` // seed of the values in the slots that are not requested
-	Seed  uint64     `json:"seed"`
+	LWELevel int        `json:"lweLevel"`
+	BR       h.RLWESpec `json:"br"`
+	W        int        `json:"w"`
+	// levels of Q and P the blind-rotation keys are generated at, counted down from the maximum (0: default)
+	KeyDropQ int     `json:"keyDropQ,omitempty"`
+	KeyDropP int     `json:"keyDropP,omitempty"`
+	F        FSpec   `json:"f"`
+	A        float64 `json:"a"`
+	B        float64 `json:"b"`
+	Slots    []Slot  `json:"slots"`
+	Fill     uint64  `json:"fill"` // seed of the values in the slots that are not requested
+	Seed     uint64  `json:"seed"`
 }
 
 func (c BRCase) RandSeed() uint64 { return c.Seed }
@@ -242,9 +245,13 @@ func genBR(t *rapid.T) BRCase {
 	}
 	c.LWE.Q = h.GenPrimes(t, []int{lweBits}, c.LWE.NthRoot(), nil, "lweq")
 	hs := []int{1, 2, 3, 4, 8, nLWE / 2, nLWE}
-	switch rapid.IntRange(0, 5).Draw(t, "lweXs") {
+	switch rapid.IntRange(0, 6).Draw(t, "lweXs") {
 	case 0:
 		c.LWE.Xs = h.DefaultXs
+	case 6:
+		// non-ternary secret: GenEvaluationKeyNew encrypts X^{s_i} for any small s_i
+		c.LWE.Xs = h.DistSpec{Kind: "gauss", Sigma: []float64{1, 3.2}[rapid.IntRange(0, 1).Draw(t, "lweGs")], Bound: 0}
+		c.LWE.Xs.Bound = 6 * c.LWE.Xs.Sigma
 	default:
 		c.LWE.Xs = h.DistSpec{Kind: "ternaryH", H: hs[rapid.IntRange(0, len(hs)-1).Draw(t, "lweH")]}
 	}
@@ -287,7 +294,13 @@ func genBR(t *rapid.T) BRCase {
 		c.BR.Xs = h.DistSpec{Kind: "ternaryH", H: []int{4, c.BR.N() / 2}[rapid.IntRange(0, 1).Draw(t, "brH")]}
 	}
 	c.BR.Xe = h.GenDist(t, false, c.BR.N(), "brXe")
-	if nP == 0 || rapid.Bool().Draw(t, "wk") {
+	if len(c.BR.Q) >= 2 && rapid.IntRange(0, 3).Draw(t, "keyDropQk") == 0 {
+		c.KeyDropQ = 1
+	}
+	if nP > 0 && rapid.IntRange(0, 3).Draw(t, "keyDropPk") == 0 {
+		c.KeyDropP = rapid.IntRange(1, nP).Draw(t, "keyDropP")
+	}
+	if nP-c.KeyDropP == 0 || rapid.Bool().Draw(t, "wk") {
 		c.W = rapid.IntRange(4, 12).Draw(t, "w")
 		// keep to decompositions whose digits cover the moduli (the short-digit finding is asserted by the product check)
 		for !wCovers(c.BR.Q, c.W) {
@@ -429,13 +442,21 @@ func runBR(c BRCase, rec *h.Rec) error {
 	}
 	QL := h.ProdU(c.LWE.Q[:lvlL+1])
 	QLf := bigF(QL)
-	QB := h.ProdU(c.BR.Q)
+	keyLQ := len(c.BR.Q) - 1 - c.KeyDropQ
+	if keyLQ < 0 {
+		keyLQ = 0
+	}
+	keyLP := len(c.BR.P) - 1 - c.KeyDropP
+	if keyLP < -1 {
+		keyLP = -1
+	}
+	QB := h.ProdU(c.BR.Q[:keyLQ+1])
 	QBf := bigF(QB)
 	twoN := 2 * nB
 
 	g, fmax := c.F.fn(c.A, c.B)
 	scale := QBf / 4 / fmax
-	F := blindrot.InitTestPolynomial(g, rlwe.NewScale(scale), br.params.RingQ(), c.A, c.B)
+	F := blindrot.InitTestPolynomial(g, rlwe.NewScale(scale), br.params.RingQ().AtLevel(keyLQ), c.A, c.B)
 
 	// LWE-side ciphertext: coefficient i holds y_i * Q/4 with y = 2p/N_BR the normalised input
 	rng := h.NewSplitMix(c.Fill)
@@ -464,8 +485,18 @@ func runBR(c BRCase, rec *h.Rec) error {
 
 	// keys
 	var evkParams []rlwe.EvaluationKeyParameters
-	if c.W > 0 {
-		evkParams = append(evkParams, rlwe.EvaluationKeyParameters{BaseTwoDecomposition: utils.Pointy(c.W)})
+	if c.W > 0 || c.KeyDropQ > 0 || c.KeyDropP > 0 {
+		ep := rlwe.EvaluationKeyParameters{}
+		if c.W > 0 {
+			ep.BaseTwoDecomposition = utils.Pointy(c.W)
+		}
+		if c.KeyDropQ > 0 {
+			ep.LevelQ = utils.Pointy(keyLQ)
+		}
+		if c.KeyDropP > 0 {
+			ep.LevelP = utils.Pointy(keyLP)
+		}
+		evkParams = append(evkParams, ep)
 	}
 	brk := blindrot.GenEvaluationKeyNew(br.params, br.sk, lwe.params, lwe.sk, evkParams...)
 
@@ -474,7 +505,7 @@ func runBR(c BRCase, rec *h.Rec) error {
 		return h.Failf("C20:blindrot.GenEvaluationKeyNew:rgsw-key-count", "%d RGSW keys for an LWE secret with %d coefficients", len(brk.BlindRotationKeys), nL)
 	}
 	E := br.spec.Xe.AbsBound()
-	levelP := len(c.BR.P) - 1
+	levelP := keyLP
 	manual := false
 	// content of every key for small secrets, of 24 drawn keys (always the first and the last) beyond 64 coefficients
 	checkContent := map[int]bool{0: true, nL - 1: true}
@@ -483,7 +514,7 @@ func runBR(c BRCase, rec *h.Rec) error {
 		checkContent[pick.Intn(nL)] = true
 	}
 	for i, k := range brk.BlindRotationKeys {
-		if k.LevelQ() != len(c.BR.Q)-1 || k.LevelP() != levelP || k.Value[0].BaseTwoDecomposition != c.W {
+		if k.LevelQ() != keyLQ || k.LevelP() != levelP || k.Value[0].BaseTwoDecomposition != c.W {
 			return h.Failf("C20:blindrot.GenEvaluationKeyNew:rgsw-key-shape", "key %d has levelQ=%d levelP=%d w=%d", i, k.LevelQ(), k.LevelP(), k.Value[0].BaseTwoDecomposition)
 		}
 		if nL > 64 && !checkContent[i] {
@@ -507,7 +538,7 @@ func runBR(c BRCase, rec *h.Rec) error {
 	if manual {
 		// same Galois keys, RGSW keys rebuilt from public rlwe primitives, to keep testing Evaluate behind the finding
 		for i := range brk.BlindRotationKeys {
-			brk.BlindRotationKeys[i] = br.manualRGSW(GSpec{Kind: "mono", A: int(lwe.s[i].Int64())}.ints(nB), len(c.BR.Q)-1, c.W)
+			brk.BlindRotationKeys[i] = br.manualRGSW(GSpec{Kind: "mono", A: int(lwe.s[i].Int64())}.ints(nB), keyLQ, c.W)
 		}
 	}
 	W := len(brk.AutomorphismKeys) - 1
@@ -531,7 +562,30 @@ func runBR(c BRCase, rec *h.Rec) error {
 	}
 	FIn := *F.CopyNew()
 	eval := blindrot.NewEvaluator(br.params, lwe.params)
-	res, err := eval.Evaluate(ctL, testPolys, rk)
+	var res map[int]*rlwe.Ciphertext
+	if keyLP < 0 && len(c.BR.P) > 0 {
+		// keys without auxiliary modulus under parameters that have one: the key switch of every automorphism asks
+		// Parameters.PiOverflowMargin(-1)
+		var pmsg string
+		func() {
+			defer func() {
+				if r := recover(); r != nil {
+					pmsg = fmt.Sprint(r)
+				}
+			}()
+			res, err = eval.Evaluate(ctL, testPolys, rk)
+		}()
+		if pmsg != "" {
+			msg := fmt.Sprintf("Evaluate with keys at LevelP=-1 under parameters with %d auxiliary primes panics: %s", len(c.BR.P), pmsg)
+			if rec.Known(keyLevelPNone, msg) {
+				rec.Class("known=keyLevelP-1-panic")
+				return nil
+			}
+			return h.Failf(keyLevelPNone, "%s", msg)
+		}
+	} else {
+		res, err = eval.Evaluate(ctL, testPolys, rk)
+	}
 	if err != nil {
 		return h.Failf("C20:blindrot.Evaluate:error", "Evaluate returned %v (lookups outside the key set: %v)", err, rk.outside)
 	}
@@ -543,11 +597,6 @@ func runBR(c BRCase, rec *h.Rec) error {
 	}
 	if len(res) != len(c.Slots) {
 		return h.Failf("C20:blindrot.Evaluate:output-slots", "%d outputs for %d requested slots", len(res), len(c.Slots))
-	}
-	for i := 0; i < nL; i++ {
-		if rk.brk[i] < len(c.Slots) || rk.brk[i] > len(c.Slots)+1 {
-			return h.Failf("C20:blindrot.Evaluate:rgsw-key-usage", "RGSW key %d requested %d times for %d slots", i, rk.brk[i], len(c.Slots))
-		}
 	}
 	allGal := true
 	for g := range wantGal {
@@ -586,6 +635,24 @@ func runBR(c BRCase, rec *h.Rec) error {
 		aSw[k] = sw(c1L[k], true)
 	}
 
+	// every RGSW key is used once per slot, except that a key whose mask coefficient switches to 0 may be skipped
+	// (X^{0*s_i} = 1); key 0 is read once more at the start of Evaluate to learn the level
+	for j := 0; j < nL; j++ {
+		zeros := 0
+		for _, s := range c.Slots {
+			if aSw[((s.Index-j)%nL+nL)%nL] == 0 {
+				zeros++
+			}
+		}
+		used := rk.brk[j]
+		if j == 0 {
+			used--
+		}
+		if used < len(c.Slots)-zeros || used > len(c.Slots) {
+			return h.Failf("C20:blindrot.Evaluate:rgsw-key-usage", "RGSW key %d requested %d times for %d slots (%d with a zero mask coefficient)", j, used, len(c.Slots), zeros)
+		}
+	}
+
 	sort.Slice(c.Slots, func(i, j int) bool { return c.Slots[i].Index < c.Slots[j].Index })
 	slotClasses := map[string]bool{}
 	exact := 0
@@ -596,6 +663,12 @@ func runBR(c BRCase, rec *h.Rec) error {
 		}
 		if out.IsNTT != c.BR.NTT {
 			return h.Failf("C20:blindrot.Evaluate:output-domain", "output IsNTT=%v under parameters with NTTFlag=%v", out.IsNTT, c.BR.NTT)
+		}
+		if out.Level() != keyLQ {
+			// the accumulator is allocated at the maximum level; only the limbs of the key level carry the result
+			rec.Class("output-level>key-level")
+			out = out.CopyNew()
+			out.Resize(out.Degree(), keyLQ)
 		}
 		dec := br.decryptBig(out)
 		have := h.Center(dec[0], QB)
@@ -679,6 +752,8 @@ func runBR(c BRCase, rec *h.Rec) error {
 	rec.Classf("lwe-%s", hClass(lwe.sL1, nL))
 	rec.Classf("ntt=%v/%v", c.LWE.NTT, c.BR.NTT)
 	rec.Classf("slots=%d", len(c.Slots))
+	rec.Classf("keyLevels=Q-%d/P-%d", c.KeyDropQ, c.KeyDropP)
+	rec.Classf("lweXs=%s", c.LWE.Xs.Kind)
 	rec.Classf("lweQ=%d/level=%d", len(c.LWE.Q), lvlL)
 	if allGal {
 		rec.Class("galois=all-requested")
@@ -715,6 +790,6 @@ func pathBR(c BRCase) string {
 	}
 }
 
-var propBR = h.NewProp("TestPropBlindRotation", h.Budget{Quick: 120, Thorough: 1500}, genBR, runBR)
+var propBR = h.NewProp("TestPropBlindRotation", h.Budget{Quick: 300, Thorough: 1500}, genBR, runBR)
 
 func TestPropBlindRotation(t *testing.T) { propBR.Check(t) }
